@@ -29,7 +29,8 @@ Definition get4 {A B C D} (f : val -> option A) (g : val -> option B) (h : val -
 
 (* the generated constants the oracle suppliers of the harness need *)
 Definition e_c19_consts (v : val) : val :=
-  VL [VZ KAISER_BETA; VZ SAVGOL_WINDOW; VZ SAVGOL_ORDER; VZ SAVGOL_NITER; vQ WMEDIAN_TOL_EPS].
+  VL [VZ KAISER_BETA; VZ SAVGOL_WINDOW; VZ SAVGOL_ORDER; VZ SAVGOL_NITER; vQ WMEDIAN_TOL_EPS;
+      VZ BILOC_MAX_ITER; vQ BILOC_EPS].
 
 (* ---- estimators on one array ---------------------------------------------- *)
 Definition e_c19_biloc (v : val) : val :=
@@ -47,7 +48,22 @@ Definition e_c19_biloc_margin (v : val) : val :=
   | None => bad_input
   end.
 
-(* [result^2; |sum of masked w|; fallback^2; formula^2] for arrays of length >= 2 *)
+(* [a; initial; supplied iterates] -> [exact result of every step; decision margin] *)
+Definition e_c19_biloc_chain (v : val) : val :=
+  match getTriple getOQs getOQ getQs v with
+  | Some (a, i, its) =>
+      let a := strip_nan a in
+      match a with
+      | _ :: _ :: _ =>
+          let i0 := match i with Some i => i | None => median a end in
+          let (rs, m) := biloc_chain (Z.to_nat BILOC_MAX_ITER) BILOC_C BILOC_EPS a i0 its 1000000 in
+          VL [vListQ rs; vQ m]
+      | _ => VL [vListQ (match biweight_location a i with Some r => [r] | None => [] end); vQ 1000000]
+      end
+  | None => bad_input
+  end.
+
+(* [result^2; mask margin; fallback^2; formula^2] for arrays of length >= 2 *)
 Definition e_c19_bivar (v : val) : val :=
   match getPair getOQs getOQ v with
   | Some (a, i) =>
@@ -58,7 +74,7 @@ Definition e_c19_bivar (v : val) : val :=
           match a with
           | _ :: _ :: _ =>
               let p := bivar_parts_of BIVAR_C BIVAR_EPS a (bivar_initial a i) in
-              VL [vQ r; vQ (qabs (bv_sum p)); vQ (bv_fallback p); vQ (bv_formula p)]
+              VL [vQ r; vQ (bv_margin p); vQ (bv_fallback p); vQ (bv_formula p)]
           | _ => VL [vQ r]
           end
       end
@@ -194,8 +210,9 @@ Definition get5 {A B C D E} (f : val -> option A) (g : val -> option B) (h : val
 
 Definition vListOrWing (r : list Q + wing_result) : val :=
   match r with inl y => vListQ y | inr e => vWing e end.
-Definition vOptListOrWing (r : option (list Q) + wing_result) : val :=
-  match r with inl y => vOptListQ y | inr e => vWing e end.
+Definition vListOQ (l : list (option Q)) : val := VL (map vOptQ l).
+Definition vOptListOrWing (r : list (option Q) + wing_result) : val :=
+  match r with inl y => vListOQ y | inr e => vWing e end.
 
 (* [x; [width; ceil oracle]; raw window] *)
 Definition e_c19_kaiser (v : val) : val :=
@@ -209,7 +226,7 @@ Definition e_c19_kaiser_w (v : val) : val :=
   match get4 getQs getQs getNat getQs v with
   | Some (x, w, wing, window) =>
       if Nat.eqb (length window) (2 * wing + 1) && Nat.eqb (length x) (length w)
-      then vOptListQ (kaiser_weighted x w wing window)
+      then vListOQ (kaiser_weighted x w wing window)
       else VErr "oracle contract"
   | None => bad_input
   end.
@@ -241,5 +258,56 @@ Definition e_c19_savgol_w (v : val) : val :=
   match get4 getQs getQs getSgArgs getQs v with
   | Some (x, w, (tw, o, ww, ord, it), coeffs) =>
       vOptListOrWing (savgol_w x w tw o ww ord it coeffs)
+  | None => bad_input
+  end.
+
+(* ---- single steps of the iterated smoothers and the public helpers ---------- *)
+(* [y; coeffs; [edge rows left; edge rows right]] -> one savgol_filter(mode="interp") pass *)
+Definition e_c19_sg_pass (v : val) : val :=
+  match getTriple getQs getQs (getPair getRows getRows) v with
+  | Some (y, coeffs, (el, er)) =>
+      if Nat.leb (length coeffs) (length y) && Nat.eqb (length el) (Nat.div (length coeffs) 2)
+         && Nat.eqb (length er) (Nat.div (length coeffs) 2)
+      then vListQ (sg_pass coeffs el er y) else VErr "oracle contract"
+  | None => bad_input
+  end.
+
+(* [window; signal; weights; n_iter] -> [y; w] (an element None: not finite) *)
+Definition e_c19_conv_weighted (v : val) : val :=
+  match get4 getQs getQs getQs getNat v with
+  | Some (window, y, w, it) =>
+      if Nat.eqb (length y) (length w) && Nat.leb (length window) (length y) then
+        let (y', w') := convolve_weighted window y w it in VL [vListOQ y'; vListQ w']
+      else VErr "AssertionError"
+  | None => bad_input
+  end.
+
+(* [window; padded signal; wing; n_iter] *)
+Definition e_c19_conv_unweighted (v : val) : val :=
+  match get4 getQs getQs getNat getNat v with
+  | Some (window, y, wing, it) =>
+      if Nat.leb (length window) (length y) then vListQ (convolve_unweighted window y wing it)
+      else VErr "oracle contract"
+  | None => bad_input
+  end.
+
+(* [n; sd; n ** (4/5)] -> [width; distance of the rounded quantity to the nearest half] *)
+Definition e_c19_guess_window (v : val) : val :=
+  match getTriple getZ getQ getQ v with
+  | Some (n, sd, p) =>
+      let raw := guess_width_raw sd p in
+      let f := (raw - inject_Z (floorQ raw))%Q in
+      VL [VZ (guess_window_size n sd p); vQ (qabs (f - (1 # 2)))]
+  | None => bad_input
+  end.
+
+(* [x; weights or None; width; ceil oracle] -> [wing; signal; weights or None] *)
+Definition e_c19_check_inputs (v : val) : val :=
+  match get4 getQs (getOpt getQs) getQ getZ v with
+  | Some (x, ws, width, o) =>
+      match check_inputs x ws width o with
+      | inl (w, sig, pw) => VL [VZ w; vListQ sig; vOptListQ pw]
+      | inr e => vWing e
+      end
   | None => bad_input
   end.
